@@ -33,5 +33,8 @@ def run(ctx):
     n = 6000 if ctx.thorough else 1500
     runs = [[ctx.seed * 10 + i, thr, n, 60 if ctx.thorough else 25] for i, thr in enumerate([6, 3, 10, 16] if ctx.thorough else [6, 3, 10])]
     run_traces(ctx, "c05_hb", runs, "event", r"explained-by-EventP (\d+)", "L-trace thread event", "sync", extra=["-ldl"], timeout=900)
+    # the synchronous hand-off through hierarchies (async_and_wait run by the drainer of a lower level, sync through several levels): an item
+    # handed off this way runs under every lock of its chain - no two items of a serial level overlap, every call returns after its item
+    run_traces(ctx, "c03_hier", [[ctx.seed * 100 + 60 + i, 6, 2000 if ctx.thorough else 300, 0] for i in range(4 if ctx.thorough else 2)], None, None, "L-api hand-off through hierarchies", "hier", extra=["-ldl"], timeout=400)
     ctx.cov["rule"] = ("c05_hb: N threads x ops of sync / barrier_sync / async_and_wait / barrier_async_and_wait / async on one serial and one concurrent queue with payload checks, then "
                        "group / semaphore / once rounds; items = work items judged; transitions = dte_value transitions explained by EventP")
